@@ -7,14 +7,20 @@ owner tag).  The theorems are over ALL schemas, ALL operation histories (any len
 observation depths `n`.  `view S n H b` is everything instance `b` reads (deep, with defaults); what `b` encodes is a
 function of its view (`encodeInst`), so the frame property for views carries over to encodings (`C18_encode_frame_partial`).
 
-The code as it is does NOT satisfy the full statement (Witness/C18.lean proves the negation on a concrete history): reading a
-never-assigned array field returns the class-level list, and mutating that list in place changes every other instance.  The
-frame theorems therefore carry the explicit hypothesis `safeRun` — no operation of the history writes into a class-level
-cell, i.e. no in-place mutation of a value obtained by reading a never-assigned array field — and are named `…_partial`.
+The code as it is (`Schema.freshArrayDefault = false`) does NOT satisfy the full statement (Witness/C18.lean proves the
+negation on a concrete history): reading a never-assigned array field returns the class-level list, and mutating that list in
+place changes every other instance.  For that model the frame theorems carry the explicit hypothesis `safeRun` — no operation
+of the history writes into a class-level cell, i.e. no in-place mutation of a value obtained by reading a never-assigned array
+field — and are named `…_partial`.
 
-FULL STATEMENT (false of the unchanged code; to be proved without `hsafe` once `get_field_value` hands out a fresh list):
+For the repaired `get_field_value` of fixes/C18-shared-array-default.md (`Schema.freshArrayDefault = true`: an unset array
+field reads as a new list each time) the same statements hold for EVERY history: `C18_frame`, `C18_encode_frame`,
+`C18_observe_pure`.  The harness probes which of the two the library does and tells the model, so the theorem that applies to
+the library under test is the one whose hypothesis on the schema the harness' requests satisfy.
 
-  theorem C18_frame (S : Schema) (ops : List Op) (op : Op) (b n : Nat) (hb : b ≠ op.target (run S init ops)) :
+FULL STATEMENT for the code as it is (false; see the witness):
+
+  theorem C18_frame_as_is (S : Schema) (ops : List Op) (op : Op) (b n : Nat) (hb : b ≠ op.target (run S init ops)) :
       view S n (run S init (ops ++ [op])) b = view S n (run S init ops) b
 -/
 namespace NasdaqModel.Props.C18
@@ -75,7 +81,7 @@ theorem C18_observe_pure_partial (S : Schema) (ops : List Op) (op : Op) (hobs : 
   | ok H' =>
     have hcs : classSafe S (run S init ops) op = true := by
       cases op <;> simp [observes] at hobs <;> simp [classSafe, writeOwner]
-    obtain ⟨hext, _, extra, hins⟩ := step_sound hi hs hcs
+    obtain ⟨hext, _, _⟩ := step_sound hi hs hcs
     have hextra : H'.insts = (run S init ops).insts := by
       cases op <;> simp [observes] at hobs
       · simp only [step] at hs
@@ -114,6 +120,37 @@ theorem C18_observe_pure_partial (S : Schema) (ops : List Op) (op : Op) (hobs : 
           first
           | exact hp
           | (rcases hq with h | h <;> rw [h] at hp <;> cases hp)
+
+/-! ### the same, at full strength, for the repaired default -/
+
+/-- **C18_frame.**  With `get_field_value` handing out a list of the caller's own: for every schema, EVERY history and every
+    further operation, what any instance other than the one the operation is about reads is unchanged. -/
+theorem C18_frame (S : Schema) (hS : S.freshArrayDefault = true) (ops : List Op) (op : Op)
+    (b : Nat) (hb : b ≠ op.target (run S init ops)) (n : Nat) :
+    view S n (run S init (ops ++ [op])) b = view S n (run S init ops) b :=
+  C18_frame_partial S ops op (safeRun_of_fresh hS _ init init_inv) b hb n
+
+/-- **C18_encode_frame.** -/
+theorem C18_encode_frame (S : Schema) (hS : S.freshArrayDefault = true) (ops : List Op) (op : Op)
+    (b : Nat) (hb : b ≠ op.target (run S init ops)) :
+    encodeInst S (run S init (ops ++ [op])) b = encodeInst S (run S init ops) b :=
+  C18_encode_frame_partial S ops op (safeRun_of_fresh hS _ init init_inv) b hb
+
+/-- **C18_observe_pure.** -/
+theorem C18_observe_pure (S : Schema) (hS : S.freshArrayDefault = true) (ops : List Op) (op : Op)
+    (hobs : observes op = true) (b n : Nat) :
+    view S n (run S init (ops ++ [op])) b = view S n (run S init ops) b :=
+  C18_observe_pure_partial S ops op hobs (safeRun_of_fresh hS _ init init_inv) b n
+
+/-- **C18_inv_always.**  The ownership invariant holds in every reachable state. -/
+theorem C18_inv_always (S : Schema) (hS : S.freshArrayDefault = true) (ops : List Op) : Inv (run S init ops) :=
+  C18_inv_reachable S ops (safeRun_of_fresh hS _ init init_inv)
+
+/-- **C18_mutation_of_default_is_local.**  In-place mutation of the list obtained by reading a never-assigned array field
+    changes what NO instance reads (the list belongs to the caller alone). -/
+theorem C18_append_to_default_is_lost (S : Schema) (H : Heap) (a : Nat) (p : List Step) (t : Tree)
+    (h : mutTarget S H a p = .ok Option.none) : step S H (.append a p t) = .ok H := by
+  simp [step, h]
 
 /-! ### freshness of created / decoded instances -/
 
@@ -228,10 +265,22 @@ theorem C18_read_owned (S : Schema) (H : Heap) (a : Nat) (cr : Nat × Addr) (p :
     (ha : H.insts[a]? = some cr) (hr : resolve S H.cells (.ref cr.2) p = .ok v) :
     RefsIn (Mine a) H.cells v.refs := by
   obtain ⟨c0, hc0, ho0⟩ := hi.roots a cr ha
-  apply resolve_owned hi.closed (hi.refs0 a) p _ v ?_ hr
+  apply resolve_owned hi.closed (defaultsIn_of_zero (hi.refs0 a)) p _ v ?_ hr
   intro x hx
   simp [Val.refs] at hx; subst hx
   exact ⟨c0, hc0, Or.inl ho0⟩
+
+/-- **C18_read_owned_fresh.**  With the repaired default the class-level alternative disappears: whatever a chain of reads
+    starting at instance `a` returns is a scalar, a list of the caller's own, or one of `a`'s own cells. -/
+theorem C18_read_owned_fresh (S : Schema) (hS : S.freshArrayDefault = true) (H : Heap) (a : Nat) (cr : Nat × Addr)
+    (p : List Step) (v : Val) (hi : Inv H)
+    (ha : H.insts[a]? = some cr) (hr : resolve S H.cells (.ref cr.2) p = .ok v) :
+    RefsIn (· = Owner.inst a) H.cells v.refs := by
+  obtain ⟨c0, hc0, ho0⟩ := hi.roots a cr ha
+  apply resolve_owned hi.closed (defaultsIn_of_fresh hS _ _) p _ v ?_ hr
+  intro x hx
+  simp [Val.refs] at hx; subst hx
+  exact ⟨c0, hc0, ho0⟩
 
 /-- **C18_held_reference_frame.**  Any later change of the heap that is confined to cells tagged `a` and to new cells tagged
     `a` — e.g. mutating, at any later time, an object once obtained by reading `a` and found to be `a`'s own by
@@ -280,7 +329,7 @@ theorem C18_class_cell_constant_partial (S : Schema) (ops : List Op) (hsafe : sa
 /-- record 0: a byte with default 5 and a big-endian array; message 65 (class 1): a 2-byte int, an array of bytes,
     a nested record (class 0) and an array of records -/
 def exSchema : Schema :=
-  ⟨[.binRec none [.int ⟨1, false, false⟩ (some 5), .arr (.int ⟨2, true, true⟩) ⟨2, false, true⟩],
+  ⟨false, [.binRec none [.int ⟨1, false, false⟩ (some 5), .arr (.int ⟨2, true, true⟩) ⟨2, false, true⟩],
     .binRec (some 65) [.int ⟨2, false, false⟩ none, .arr (.int ⟨1, false, false⟩) ⟨2, false, false⟩, .recd 0,
                        .arr (.recd 0) ⟨2, false, false⟩]]⟩
 
@@ -311,7 +360,7 @@ example : encodeInst exSchema (run exSchema init exOps3) 1 = .ok [65, 0, 0, 2, 0
 
 /-- FIX: a group class (0: delimiter 501, string 502), header (1), trailer (2), body (3) with a repeating group 500, message (4) -/
 def exFix : Schema :=
-  ⟨[.fixSeg true [.field 501 .int, .field 502 .str],
+  ⟨false, [.fixSeg true [.field 501 .int, .field 502 .str],
     .fixSeg false [.field 8 .str],
     .fixSeg false [.field 10 .int],
     .fixSeg false [.field 55 .str, .group 500 0],
@@ -335,5 +384,17 @@ def exFixOps2 : List Op :=
 
 example : safeRun exFix init exFixOps2 = true := by decide
 example : encodeInst exFix (run exFix init exFixOps2) 1 = .ok [56,61,70,1, 53,53,61,65,66,1] := by decide
+
+/-- the repaired default: the same message type, appending to the never-assigned array of instance 0 is lost, nobody changes -/
+def exFresh : Schema := { exSchema with freshArrayDefault := true }
+
+def exFreshOps : List Op := [.new 1, .new 1, .append 0 [.fld 1] (.int 7), .new 1]
+
+example : exFresh.freshArrayDefault = true := rfl
+example : mutTarget exFresh (run exFresh init (exFreshOps.take 2)) 0 [.fld 1] = .ok Option.none := by decide
+example : encodeInst exFresh (run exFresh init exFreshOps) 0 = .ok [65, 0, 0, 0, 0, 5, 0, 0, 0, 0] := by decide
+example : encodeInst exFresh (run exFresh init exFreshOps) 2 = .ok [65, 0, 0, 0, 0, 5, 0, 0, 0, 0] := by decide
+/-- while the model of the code as it is shows the defect on the same history -/
+example : encodeInst exSchema (run exSchema init exFreshOps) 2 = .error .other := by decide
 
 end NasdaqModel.Props.C18
